@@ -79,7 +79,7 @@ func runFault(t *testing.T, c *compiled, order []int, f faultSpec) (x execution,
 			t.Fatalf("harness: document does not parse: %v", err)
 		}
 		x.adds++
-		return in.store.Add(doc, e.tx)
+		return in.store.Add(doc, c.arrTx[a])
 	}
 	var late []int
 	for pos, a := range order {
